@@ -388,4 +388,533 @@ theorem Limit.consume_spec (s : Src) (N : Nat) (bufs : List Nat) (dflt : Nat)
   · exact hd
   · simp [Limit.fuel, Limit.new]
 
+/-! ### MultiReaderCloser -/
+
+/-- What a consumer of the remaining readers will receive: the concatenation of the sources up to
+and including the first one that ends in an error; EOF iff none does. -/
+def multiSpec : List Src → Bytes × Err
+  | [] => ([], .eof)
+  | s :: ss => if s.term = .eof then (s.rest ++ (multiSpec ss).1, (multiSpec ss).2) else (s.rest, s.term)
+
+def Src.closedOnce (s : Src) : Prop := s.closes = if s.closable then 1 else 0
+
+def listSize (rs : List Src) : Nat := (rs.map (fun s => s.size + 1)).sum
+
+def Multi.Inv (G : List Bool) (M : Multi) : Prop :=
+  (∀ s ∈ M.readers, s.closes = 0) ∧ (∀ s ∈ M.done, s.closedOnce) ∧
+    (M.done ++ M.readers).map (·.closable) = G
+
+theorem Multi.readLoop_cons (m : Nat) (r : Src) (rs dn : List Src) :
+    Multi.readLoop m (r :: rs) dn =
+      if (r.read m).2.2 = some .eof then
+        (if (r.read m).2.1 ≠ [] then
+          ({ readers := rs, done := dn ++ [(r.read m).1.closeIfCloser] }, (r.read m).2.1,
+            if rs = [] then some .eof else none)
+        else Multi.readLoop m rs (dn ++ [(r.read m).1.closeIfCloser]))
+      else ({ readers := (r.read m).1 :: rs, done := dn }, (r.read m).2.1, (r.read m).2.2) := by
+  rw [Multi.readLoop]
+  rcases r.read m with ⟨r', d, e⟩
+  cases e with
+  | none => simp
+  | some e => cases e <;> simp
+
+theorem Src.closeIfCloser_closedOnce {s : Src} (h : s.closes = 0) : s.closeIfCloser.closedOnce := by
+  unfold Src.closeIfCloser Src.closedOnce Src.close
+  cases hc : s.closable <;> simp [hc, h]
+
+@[simp] theorem Src.closeIfCloser_closable (s : Src) : s.closeIfCloser.closable = s.closable := by
+  unfold Src.closeIfCloser Src.close; split <;> rfl
+
+theorem multiSpec_cons_none {r r' : Src} {d : Bytes} (rs : List Src)
+    (hrest : r.rest = d ++ r'.rest) (hterm : r'.term = r.term) :
+    multiSpec (r :: rs) = (d ++ (multiSpec (r' :: rs)).1, (multiSpec (r' :: rs)).2) := by
+  simp only [multiSpec, hterm, hrest]
+  split <;> simp
+
+theorem Multi.readLoop_step (m : Nat) : ∀ (rs dn : List Src) (M' : Multi) (d : Bytes) (e : Option Err),
+    (∀ s ∈ rs, s.closes = 0) → (∀ s ∈ dn, s.closedOnce) →
+    Multi.readLoop m rs dn = (M', d, e) →
+    (∀ s ∈ M'.readers, s.closes = 0) ∧ (∀ s ∈ M'.done, s.closedOnce) ∧
+    (M'.done ++ M'.readers).map (·.closable) = (dn ++ rs).map (·.closable) ∧
+    (match e with
+     | none => multiSpec rs = (d ++ (multiSpec M'.readers).1, (multiSpec M'.readers).2) ∧
+        listSize M'.readers ≤ listSize rs ∧ (0 < m → listSize M'.readers < listSize rs)
+     | some e => multiSpec rs = (d, e)) := by
+  intro rs
+  induction rs with
+  | nil =>
+    intro dn M' d e _ hdn h
+    simp only [Multi.readLoop, Prod.mk.injEq] at h
+    obtain ⟨rfl, rfl, rfl⟩ := h
+    exact ⟨by simp, hdn, by simp, by simp [multiSpec]⟩
+  | cons r rs ih =>
+    intro dn M' d e hrs hdn h
+    have hr0 : r.closes = 0 := hrs r (by simp)
+    have hrs' : ∀ s ∈ rs, s.closes = 0 := fun s hs => hrs s (by simp [hs])
+    rw [Multi.readLoop_cons] at h
+    rcases hr : r.read m with ⟨r', d0, e0⟩
+    rw [hr] at h
+    simp only at h
+    by_cases he : e0 = some .eof
+    · subst he
+      obtain ⟨hterm, hd0, _, hmeta, _⟩ := Src.read_some hr0 hr
+      obtain ⟨_, _, hclosable, hcls⟩ := hmeta
+      have hdn' : ∀ s ∈ dn ++ [r'.closeIfCloser], s.closedOnce := by
+        intro s hs
+        rcases List.mem_append.mp hs with hs | hs
+        · exact hdn s hs
+        · simp only [List.mem_singleton] at hs
+          subst hs
+          exact Src.closeIfCloser_closedOnce (by rw [hcls, hr0])
+      have hspec : multiSpec (r :: rs) = (d0 ++ (multiSpec rs).1, (multiSpec rs).2) := by
+        simp [multiSpec, ← hterm, hd0]
+      simp only [↓reduceIte] at h
+      by_cases hne : d0 ≠ []
+      · simp only [hne, ne_eq, not_false_eq_true, ↓reduceIte, Prod.mk.injEq] at h
+        obtain ⟨rfl, rfl, rfl⟩ := h
+        refine ⟨hrs', hdn', by simp [hclosable], ?_⟩
+        by_cases hnil : rs = []
+        · subst hnil
+          simp only [↓reduceIte]
+          rw [hspec]; simp [multiSpec]
+        · simp only [hnil, ↓reduceIte]
+          refine ⟨hspec, ?_, fun _ => ?_⟩ <;> simp [listSize] <;> omega
+      · simp only [hne, ↓reduceIte] at h
+        have hd0nil : d0 = [] := by simpa using hne
+        obtain ⟨i1, i2, i3, i4⟩ := ih _ M' d e hrs' hdn' h
+        refine ⟨i1, i2, by rw [i3]; simp [hclosable], ?_⟩
+        cases e with
+        | none =>
+          simp only at i4 ⊢
+          refine ⟨by rw [hspec, hd0nil, i4.1]; simp, ?_, fun hm => ?_⟩
+          · have := i4.2.1; simp [listSize] at this ⊢; omega
+          · have := i4.2.2 hm; simp [listSize] at this ⊢; omega
+        | some e =>
+          simp only at i4 ⊢
+          rw [hspec, hd0nil, i4]; simp
+    · simp only [he, ↓reduceIte, Prod.mk.injEq] at h
+      obtain ⟨rfl, rfl, rfl⟩ := h
+      cases e0 with
+      | none =>
+        obtain ⟨hrest, hmeta, _, hsz, hszlt⟩ := Src.read_none hr0 hr
+        obtain ⟨_, hterm, hclosable, hcls⟩ := hmeta
+        refine ⟨?_, hdn, by simp [hclosable], ?_⟩
+        · intro s hs
+          simp only [List.mem_cons] at hs
+          rcases hs with rfl | hs
+          · rw [hcls, hr0]
+          · exact hrs' s hs
+        · simp only
+          refine ⟨multiSpec_cons_none rs hrest hterm, ?_, fun hm => ?_⟩
+          · simp [listSize]; omega
+          · have := hszlt hm; simp [listSize]; omega
+      | some e1 =>
+        obtain ⟨hterm, hd0, _, hmeta, _⟩ := Src.read_some hr0 hr
+        obtain ⟨_, _, hclosable, hcls⟩ := hmeta
+        refine ⟨?_, hdn, by simp [hclosable], ?_⟩
+        · intro s hs
+          simp only [List.mem_cons] at hs
+          rcases hs with rfl | hs
+          · rw [hcls, hr0]
+          · exact hrs' s hs
+        · simp only
+          have : r.term ≠ .eof := by rw [← hterm]; intro h; exact he (by rw [h])
+          simp [multiSpec, this, hd0, hterm]
+
+/-- The consumer loop over a multi reader yields `multiSpec`, and keeps the close-count invariant. -/
+theorem Multi.consume_spec (srcs : List Src) (bufs : List Nat) (dflt : Nat)
+    (hc : ∀ s ∈ srcs, s.closes = 0) (hd : 0 < dflt) :
+    ((Multi.new srcs).consume bufs dflt).2 = multiSpec srcs ∧
+      Multi.Inv (srcs.map (·.closable)) ((Multi.new srcs).consume bufs dflt).1 := by
+  unfold Multi.consume
+  have := drain_spec Multi.read (fun M => multiSpec M.readers) (Multi.Inv (srcs.map (·.closable)))
+    (fun M _ => Multi.Inv (srcs.map (·.closable)) M) (fun M => listSize M.readers)
+    (by
+      intro M m M' d hI h
+      obtain ⟨h1, h2, h3, h4⟩ := Multi.readLoop_step m M.readers M.done M' d none hI.1 hI.2.1 h
+      exact ⟨⟨h1, h2, by rw [h3]; exact hI.2.2⟩, h4.1, h4.2.1, h4.2.2⟩)
+    (by
+      intro M m M' d e hI h
+      obtain ⟨h1, h2, h3, h4⟩ := Multi.readLoop_step m M.readers M.done M' d (some e) hI.1 hI.2.1 h
+      exact ⟨⟨h1, h2, by rw [h3]; exact hI.2.2⟩, h4⟩)
+    ((Multi.new srcs).fuel bufs) (Multi.new srcs) bufs dflt
+    ⟨hc, by simp [Multi.new], by simp [Multi.new]⟩ hd
+    (by simp [Multi.fuel, Multi.size, Multi.new, listSize])
+  exact this
+
+/-- After `Close`, the invariant says every source that is a closer was closed exactly once and
+the others never. -/
+theorem Multi.close_counts {G : List Bool} {M : Multi} (h : Multi.Inv G M) :
+    M.close.closeCounts = G.map (fun b => if b then 1 else 0) ∧ M.close.readers = [] := by
+  obtain ⟨h1, h2, h3⟩ := h
+  refine ⟨?_, rfl⟩
+  rw [← h3]
+  simp only [Multi.close, Multi.closeCounts, List.append_nil, List.map_append, List.map_map]
+  congr 1
+  · apply List.map_congr_left
+    intro s hs
+    exact h2 s hs
+  · apply List.map_congr_left
+    intro s hs
+    have := Src.closeIfCloser_closedOnce (h1 s hs)
+    simpa [Src.closedOnce] using this
+
+/-! #### WriteTo -/
+
+theorem copyLoop_meta (m : Nat) : ∀ (fuel : Nat) (s : Src) (w : Wr), s.closes = 0 →
+    s.sameMeta (copyLoop m fuel s w).1 := by
+  intro fuel
+  induction fuel with
+  | zero => intro s w _; simp [copyLoop, Src.sameMeta]
+  | succ f ih =>
+    intro s w hc
+    rw [copyLoop]
+    rcases hr : s.read m with ⟨s', d, er⟩
+    have hmeta : s.sameMeta s' := by
+      cases er with
+      | none => exact (Src.read_none hc hr).2.1
+      | some e => exact (Src.read_some hc hr).2.2.2.1
+    have hc' : s'.closes = 0 := by rw [hmeta.2.2.2, hc]
+    have hrec : ∀ w', s.sameMeta (copyLoop m f s' w').1 := by
+      intro w'
+      have := ih s' w' hc'
+      exact ⟨this.1.trans hmeta.1, this.2.1.trans hmeta.2.1, this.2.2.1.trans hmeta.2.2.1,
+        this.2.2.2.trans hmeta.2.2.2⟩
+    simp only
+    split
+    · rcases w.write d with ⟨w', nw, ew⟩
+      cases ew with
+      | some ew => exact hmeta
+      | none =>
+        cases er with
+        | none => exact hrec w'
+        | some e => cases e <;> exact hmeta
+    · cases er with
+      | none => exact hrec w
+      | some e => cases e <;> exact hmeta
+
+def errOfTerm (e : Err) : Option Err := if e = .eof then none else some e
+
+theorem Wr.write_good {w : Wr} (h : w.cap = none) (d : Bytes) :
+    w.write d = ({ w with got := w.got ++ d }, d.length, none) := by
+  unfold Wr.write; rw [h]
+
+/-- `io.CopyBuffer` from a scripted source into a writer that never fails copies the whole rest
+of the source and reports the source's error (nil for EOF). -/
+theorem copyLoop_good (m : Nat) (hm : 0 < m) : ∀ (fuel : Nat) (s : Src) (w : Wr),
+    s.closes = 0 → w.cap = none → s.size < fuel →
+    (copyLoop m fuel s w).2.1 = { w with got := w.got ++ s.rest } ∧
+      (copyLoop m fuel s w).2.2 = errOfTerm s.term := by
+  intro fuel
+  induction fuel with
+  | zero => intro s w _ _ hf; omega
+  | succ f ih =>
+    intro s w hc hw hf
+    rw [copyLoop]
+    rcases hr : s.read m with ⟨s', d, er⟩
+    simp only
+    cases er with
+    | none =>
+      obtain ⟨hrest, hmeta, _, _, hszlt⟩ := Src.read_none hc hr
+      have hc' : s'.closes = 0 := by rw [hmeta.2.2.2, hc]
+      have hf' : s'.size < f := by have := hszlt hm; omega
+      split
+      · rw [Wr.write_good hw]
+        simp only
+        have := ih s' { w with got := w.got ++ d } hc' hw hf'
+        rw [this.1, this.2, hmeta.2.1, hrest]
+        simp
+      · rename_i hd
+        have hd : d = [] := by simpa using hd
+        have := ih s' w hc' hw hf'
+        rw [this.1, this.2, hmeta.2.1, hrest, hd]
+        simp
+    | some e =>
+      obtain ⟨hterm, hd, _, _, _⟩ := Src.read_some hc hr
+      split
+      · rw [Wr.write_good hw]
+        simp only
+        cases e <;> simp [errOfTerm, ← hterm, hd]
+      · rename_i hdn
+        have hdn : d = [] := by simpa using hdn
+        have : s.rest = [] := by rw [← hd, hdn]
+        cases e <;> simp [errOfTerm, ← hterm, this]
+
+theorem Multi.writeLoop_inv : ∀ (rs dn : List Src) (w : Wr),
+    (∀ s ∈ rs, s.closes = 0) → (∀ s ∈ dn, s.closedOnce) →
+    (∀ s ∈ (Multi.writeLoop .fixed rs dn w).1.readers, s.closes = 0) ∧
+    (∀ s ∈ (Multi.writeLoop .fixed rs dn w).1.done, s.closedOnce) ∧
+    ((Multi.writeLoop .fixed rs dn w).1.done ++ (Multi.writeLoop .fixed rs dn w).1.readers).map (·.closable)
+      = (dn ++ rs).map (·.closable) := by
+  intro rs
+  induction rs with
+  | nil => intro dn w _ hdn; simp [Multi.writeLoop]; exact hdn
+  | cons r rs ih =>
+    intro dn w hrs hdn
+    have hr0 : r.closes = 0 := hrs r (by simp)
+    have hrs' : ∀ s ∈ rs, s.closes = 0 := fun s hs => hrs s (by simp [hs])
+    rw [Multi.writeLoop]
+    have hmeta := copyLoop_meta copyBufSize (r.size + 1) r w hr0
+    rcases hcp : copyBuffer r w with ⟨r', w', e⟩
+    have hcp' : (copyLoop copyBufSize (r.size + 1) r w).1 = r' := by
+      have : copyBuffer r w = copyLoop copyBufSize (r.size + 1) r w := rfl
+      rw [← this, hcp]
+    rw [hcp'] at hmeta
+    obtain ⟨_, _, hclosable, hcls⟩ := hmeta
+    cases e with
+    | some e =>
+      simp only
+      refine ⟨?_, hdn, by simp [hclosable]⟩
+      intro s hs
+      simp only [List.mem_cons] at hs
+      rcases hs with rfl | hs
+      · rw [hcls, hr0]
+      · exact hrs' s hs
+    | none =>
+      simp only
+      have hdn' : ∀ s ∈ dn ++ [r'.closeIfCloser], s.closedOnce := by
+        intro s hs
+        rcases List.mem_append.mp hs with hs | hs
+        · exact hdn s hs
+        · simp only [List.mem_singleton] at hs
+          subst hs
+          exact Src.closeIfCloser_closedOnce (by rw [hcls, hr0])
+      obtain ⟨i1, i2, i3⟩ := ih (dn ++ [r'.closeIfCloser]) w' hrs' hdn'
+      exact ⟨i1, i2, by rw [i3]; simp [hclosable]⟩
+
+theorem Multi.writeLoop_good : ∀ (rs dn : List Src) (w : Wr),
+    (∀ s ∈ rs, s.closes = 0) → w.cap = none →
+    (Multi.writeLoop .fixed rs dn w).2.1 = { w with got := w.got ++ (multiSpec rs).1 } ∧
+    (Multi.writeLoop .fixed rs dn w).2.2 = errOfTerm (multiSpec rs).2 := by
+  intro rs
+  induction rs with
+  | nil => intro dn w _ _; simp [Multi.writeLoop, multiSpec, errOfTerm]
+  | cons r rs ih =>
+    intro dn w hrs hw
+    have hr0 : r.closes = 0 := hrs r (by simp)
+    have hrs' : ∀ s ∈ rs, s.closes = 0 := fun s hs => hrs s (by simp [hs])
+    rw [Multi.writeLoop]
+    have hgood := copyLoop_good copyBufSize (by decide) (r.size + 1) r w hr0 hw (by omega)
+    rcases hcp : copyBuffer r w with ⟨r', w', e⟩
+    have hcp' : copyLoop copyBufSize (r.size + 1) r w = (r', w', e) := by
+      have : copyBuffer r w = copyLoop copyBufSize (r.size + 1) r w := rfl
+      rw [← this, hcp]
+    rw [hcp'] at hgood
+    simp only at hgood
+    obtain ⟨hw', he⟩ := hgood
+    by_cases ht : r.term = .eof
+    · simp only [errOfTerm, ht, ↓reduceIte] at he
+      subst he
+      simp only
+      have hwc : w'.cap = none := by rw [hw']; exact hw
+      obtain ⟨i1, i2⟩ := ih (dn ++ [r'.closeIfCloser]) w' hrs' hwc
+      rw [i1, i2, hw']
+      simp [multiSpec, ht]
+    · simp only [errOfTerm, ht, ↓reduceIte] at he
+      subst he
+      simp [multiSpec, ht, errOfTerm, hw']
+
+/-! ### TeeReadCloser -/
+
+/-- A stream `(bytes, terminal)` seen through a writer that accepts `cap` more bytes: unchanged if
+it fits, else cut at the capacity and ended by the writer's error. -/
+def cut (cap : Option Nat) (x : Bytes × Err) : Bytes × Err :=
+  match cap with
+  | none => x
+  | some c => if x.1.length ≤ c then x else (x.1.take c, .wfail)
+
+/-- What a consumer of a tee reader will still receive. -/
+def Tee.spec (t : Tee) : Bytes × Err :=
+  if t.eof then ([], .eof) else cut t.w.cap (t.src.rest, t.src.term)
+
+/-- `G` = everything the writer will have received at the end; `cl` = whether the source is a closer. -/
+def Tee.Inv (G : Bytes) (cl : Bool) (t : Tee) : Prop :=
+  t.rOpen = true ∧ t.wOpen = true ∧ t.eof = false ∧ t.src.closes = 0 ∧ t.src.closable = cl ∧
+    t.w.got ++ (Tee.spec t).1 = G
+
+def Tee.Fin (G : Bytes) (cl : Bool) (t : Tee) (_ : Err) : Prop :=
+  t.rOpen = true ∧ t.wOpen = true ∧ t.src.closes = 0 ∧ t.src.closable = cl ∧ t.w.got = G
+
+/-- a successful write -/
+theorem Wr.write_ok {w w' : Wr} {d : Bytes} {nw : Nat} (h : w.write d = (w', nw, none)) :
+    w'.got = w.got ++ d ∧ ∀ r e, cut w.cap (d ++ r, e) = (d ++ (cut w'.cap (r, e)).1, (cut w'.cap (r, e)).2) := by
+  unfold Wr.write at h
+  cases hcap : w.cap with
+  | none =>
+    rw [hcap] at h
+    simp only [Prod.mk.injEq] at h
+    obtain ⟨rfl, _, _⟩ := h
+    exact ⟨rfl, fun r e => by simp [cut]⟩
+  | some c =>
+    rw [hcap] at h
+    simp only at h
+    split at h
+    · rename_i hfit
+      simp only [Prod.mk.injEq] at h
+      obtain ⟨rfl, _, _⟩ := h
+      refine ⟨rfl, fun r e => ?_⟩
+      simp only [cut, List.length_append]
+      by_cases hle : d.length + r.length ≤ c
+      · have : r.length ≤ c - d.length := by omega
+        simp [hle, this]
+      · have : ¬ r.length ≤ c - d.length := by omega
+        simp only [hle, this, ↓reduceIte, Prod.mk.injEq, and_true]
+        rw [List.take_append, List.take_of_length_le hfit]
+    · simp at h
+
+/-- a failing (short) write -/
+theorem Wr.write_fail {w w' : Wr} {d : Bytes} {nw : Nat} {ew : Err} (h : w.write d = (w', nw, some ew)) :
+    ew = .wfail ∧ w'.got = w.got ++ d.take nw ∧ ∀ r e, cut w.cap (d ++ r, e) = (d.take nw, .wfail) := by
+  unfold Wr.write at h
+  cases hcap : w.cap with
+  | none => rw [hcap] at h; simp at h
+  | some c =>
+    rw [hcap] at h
+    simp only at h
+    split at h
+    · simp at h
+    · rename_i hfit
+      simp only [Prod.mk.injEq, Option.some.injEq] at h
+      obtain ⟨rfl, rfl, rfl⟩ := h
+      refine ⟨rfl, rfl, fun r e => ?_⟩
+      have : ¬ d.length + r.length ≤ c := by omega
+      simp only [cut, List.length_append, this, ↓reduceIte, Prod.mk.injEq, and_true]
+      rw [List.take_append]
+      have : c - d.length = 0 := by omega
+      simp [this]
+
+theorem cut_nil (cap : Option Nat) (e : Err) : cut cap ([], e) = ([], e) := by
+  cases cap <;> simp [cut]
+
+theorem Tee.read_open {t : Tee} (m : Nat) (hr : t.rOpen = true) (hw : t.wOpen = true)
+    (he : t.eof = false) :
+    t.read m =
+      if (t.src.read m).2.1 ≠ [] then
+        match t.w.write (t.src.read m).2.1 with
+        | (w', nw, some ew) =>
+          ({ t with src := (t.src.read m).1, w := w', eof := ((t.src.read m).2.2 == some .eof) },
+            (t.src.read m).2.1.take nw, some ew)
+        | (w', _, none) =>
+          ({ t with src := (t.src.read m).1, w := w', eof := ((t.src.read m).2.2 == some .eof) },
+            (t.src.read m).2.1, (t.src.read m).2.2)
+      else ({ t with src := (t.src.read m).1, eof := ((t.src.read m).2.2 == some .eof) },
+            (t.src.read m).2.1, (t.src.read m).2.2) := by
+  unfold Tee.read
+  have h1 : ¬ (t.rOpen = false ∨ t.wOpen = false) := by simp [hr, hw]
+  rw [if_neg h1, he]
+  simp only [Bool.false_eq_true, ↓reduceIte, Bool.false_or]
+  rfl
+
+theorem Tee.step {G : Bytes} {cl : Bool} {t t' : Tee} {m : Nat} {d : Bytes} {e : Option Err}
+    (hI : Tee.Inv G cl t) (h : t.read m = (t', d, e)) :
+    match e with
+    | none => Tee.Inv G cl t' ∧ Tee.spec t = (d ++ (Tee.spec t').1, (Tee.spec t').2) ∧
+        t'.src.size ≤ t.src.size ∧ (0 < m → t'.src.size < t.src.size)
+    | some e => Tee.Fin G cl t' e ∧ Tee.spec t = (d, e) := by
+  obtain ⟨hr, hw, he, hc, hcl, hG⟩ := hI
+  rw [Tee.read_open m hr hw he] at h
+  have hspec0 : Tee.spec t = cut t.w.cap (t.src.rest, t.src.term) := by simp [Tee.spec, he]
+  rw [hspec0] at hG
+  rcases hrd : t.src.read m with ⟨s', d0, e0⟩
+  rw [hrd] at h
+  simp only at h
+  -- facts about the source's answer
+  have hsrc : t.src.sameMeta s' ∧
+      (match e0 with
+       | none => t.src.rest = d0 ++ s'.rest ∧ s'.size ≤ t.src.size ∧ (0 < m → s'.size < t.src.size)
+       | some e1 => e1 = t.src.term ∧ d0 = t.src.rest) := by
+    cases e0 with
+    | none => have := Src.read_none hc hrd; exact ⟨this.2.1, this.1, this.2.2.2.1, this.2.2.2.2⟩
+    | some e1 => have := Src.read_some hc hrd; exact ⟨this.2.2.2.1, this.1, this.2.1⟩
+  obtain ⟨⟨_, hterm, hclosable, hcls⟩, hans⟩ := hsrc
+  have hc' : s'.closes = 0 := by rw [hcls, hc]
+  have hcl' : s'.closable = cl := by rw [hclosable, hcl]
+  by_cases hd : d0 = []
+  · -- nothing read: nothing written
+    simp only [hd, ne_eq, not_true_eq_false, ↓reduceIte, Prod.mk.injEq] at h
+    obtain ⟨ht', rfl, rfl⟩ := h
+    cases e0 with
+    | none =>
+      simp only at hans ⊢
+      have hrest : s'.rest = t.src.rest := by rw [hans.1, hd]; simp
+      have hs : Tee.spec t' = cut t.w.cap (t.src.rest, t.src.term) := by
+        rw [← ht']; simp [Tee.spec, hrest, hterm]
+      refine ⟨⟨by rw [← ht']; exact hr, by rw [← ht']; exact hw, by rw [← ht']; rfl,
+        by rw [← ht']; exact hc', by rw [← ht']; exact hcl', ?_⟩, ?_, ?_, ?_⟩
+      · rw [hs, ← ht']; exact hG
+      · rw [hs, hspec0]; simp
+      · rw [← ht']; exact hans.2.1
+      · rw [← ht']; exact hans.2.2
+    | some e1 =>
+      simp only at hans ⊢
+      have hrest : t.src.rest = [] := by rw [← hans.2, hd]
+      have hs : Tee.spec t = ([], e1) := by rw [hspec0, hrest, hans.1, cut_nil]
+      refine ⟨⟨by rw [← ht']; exact hr, by rw [← ht']; exact hw, by rw [← ht']; exact hc',
+        by rw [← ht']; exact hcl', ?_⟩, hs⟩
+      rw [← ht']; rw [← hspec0, hs] at hG; simpa using hG
+  · simp only [ne_eq, hd, not_false_eq_true, ↓reduceIte] at h
+    rcases hwr : t.w.write d0 with ⟨w', nw, ew⟩
+    rw [hwr] at h
+    cases ew with
+    | some ew =>
+      -- the writer failed: the consumer gets what was written and the writer's error
+      simp only [Prod.mk.injEq] at h
+      obtain ⟨ht', rfl, rfl⟩ := h
+      obtain ⟨rfl, hgot, hcut⟩ := Wr.write_fail hwr
+      have hs : Tee.spec t = (d0.take nw, .wfail) := by
+        rw [hspec0]
+        cases e0 with
+        | none => simp only at hans; rw [hans.1]; exact hcut _ _
+        | some e1 =>
+          simp only at hans
+          have := hcut [] t.src.term
+          rw [List.append_nil] at this
+          rw [← hans.2]; exact this
+      refine ⟨⟨by rw [← ht']; exact hr, by rw [← ht']; exact hw, by rw [← ht']; exact hc',
+        by rw [← ht']; exact hcl', ?_⟩, hs⟩
+      rw [← ht']; rw [← hspec0, hs] at hG; simp only at hG ⊢; rw [hgot]; exact hG
+    | none =>
+      simp only [Prod.mk.injEq] at h
+      obtain ⟨ht', rfl, rfl⟩ := h
+      obtain ⟨hgot, hcut⟩ := Wr.write_ok hwr
+      cases e0 with
+      | none =>
+        simp only at hans ⊢
+        have hs' : Tee.spec t' = cut w'.cap (s'.rest, t.src.term) := by
+          rw [← ht']; simp [Tee.spec, hterm]
+        have hs : Tee.spec t = (d0 ++ (cut w'.cap (s'.rest, t.src.term)).1, (cut w'.cap (s'.rest, t.src.term)).2) := by
+          rw [hspec0, hans.1]; exact hcut _ _
+        refine ⟨⟨by rw [← ht']; exact hr, by rw [← ht']; exact hw, by rw [← ht']; rfl,
+          by rw [← ht']; exact hc', by rw [← ht']; exact hcl', ?_⟩, ?_, ?_, ?_⟩
+        · rw [hs', ← ht']; rw [← hspec0, hs] at hG; simp only at hG ⊢; rw [hgot]; simpa using hG
+        · rw [hs, hs']
+        · rw [← ht']; exact hans.2.1
+        · rw [← ht']; exact hans.2.2
+      | some e1 =>
+        simp only at hans ⊢
+        have hs : Tee.spec t = (d0, e1) := by
+          rw [hspec0]
+          have := hcut [] t.src.term
+          rw [List.append_nil, cut_nil] at this
+          rw [← hans.2, this, hans.1]; simp
+        refine ⟨⟨by rw [← ht']; exact hr, by rw [← ht']; exact hw, by rw [← ht']; exact hc',
+          by rw [← ht']; exact hcl', ?_⟩, hs⟩
+        rw [← ht']; rw [← hspec0, hs] at hG; simp only at hG ⊢; rw [hgot]; exact hG
+
+theorem Tee.consume_spec (s : Src) (w : Wr) (bufs : List Nat) (dflt : Nat)
+    (hc : s.closes = 0) (hd : 0 < dflt) :
+    ((Tee.new s w).consume bufs dflt).2 = cut w.cap (s.rest, s.term) ∧
+      Tee.Fin (w.got ++ (cut w.cap (s.rest, s.term)).1) s.closable ((Tee.new s w).consume bufs dflt).1
+        ((Tee.new s w).consume bufs dflt).2.2 := by
+  have hs : Tee.spec (Tee.new s w) = cut w.cap (s.rest, s.term) := by simp [Tee.spec, Tee.new]
+  rw [← hs]
+  unfold Tee.consume
+  apply drain_spec Tee.read Tee.spec (Tee.Inv (w.got ++ (Tee.spec (Tee.new s w)).1) s.closable)
+    (Tee.Fin (w.got ++ (Tee.spec (Tee.new s w)).1) s.closable) (fun t => t.src.size)
+  · intro t m t' d hI h; exact Tee.step hI h
+  · intro t m t' d e hI h; exact Tee.step hI h
+  · exact ⟨rfl, rfl, rfl, hc, rfl, rfl⟩
+  · exact hd
+  · simp [Tee.fuel, Tee.new]
+
 end Kit.Streams
